@@ -148,10 +148,15 @@ def rule_b(ctx):
         if "unchecked" in name:
             continue
         ctx.fn(m0)
-        fl = flow(m)
         mt, how = membership_tests(F, m)
         if not mt:
+            # the test may be written with an iterator combinator (`FORBIDDEN.iter().any(|s| *s == signal)`): look at the form in which
+            # std combinators stay calls
+            m = reg.RN(F, m0, hof=False)
+            mt, how = membership_tests(F, m)
+        if not mt:
             raise AnchorLost("%s: membership test on FORBIDDEN" % name)
+        fl = flow(m)
         cont = [bb for bb, _ in mt]
         for cbb in cont:
             ctx.check(how[cbb]["needle_is_signal"], rid, "tests-signal-in-FORBIDDEN@%s" % name, "the check tests the function's own signal parameter for membership in FORBIDDEN (%s)" % how[cbb]["form"],
